@@ -146,6 +146,18 @@ class Method(AbstractTaskNetwork):
         res += sum(map(hash, self.subtasks))
         return res
 
+    def clone(self, new_actions=None) -> "Method":
+        """
+        Returns a copy of this method. If `new_actions` (an `ActionsSetMixin`, e.g. a cloned problem)
+        is given, the subtasks that are actions refer to the actions with the same name in `new_actions`.
+        """
+        new = Method(self._name, list(self._parameters.values()), self._env)
+        new._task = self._task
+        new._preconditions = self._preconditions[:]
+        new._subtasks = [st.clone(new_actions) for st in self._subtasks]
+        new._constraints = self._constraints[:]
+        return new
+
     @property
     def name(self) -> str:
         """Returns the action name."""
